@@ -76,8 +76,12 @@ int Wait(pid_t child) {
   UTIL_THROW_IF(-1 == waitpid(child, &status, 0), util::ErrnoException, "waitpid for child failed");
   if (WIFEXITED(status)) {
     return WEXITSTATUS(status);
+  } else if (WIFSIGNALED(status)) {
+    // Shell convention.  The value is returned from main, so it must be
+    // non-zero modulo 256: 256 would be reported as success.
+    return 128 + WTERMSIG(status);
   } else {
-    return 256;
+    return 255;
   }
 }
 
